@@ -42,7 +42,7 @@ func (c12) Plan(tier string, seed int64) []mon.Workload {
 		{Name: "datetime", N: 600 * m},
 		{Name: "xml", N: int64(len(c12Docs) * len(gen.XPaths) * 3), Exhaustive: true},
 		{Name: "sql", N: 300 * m},
-		{Name: "typed-captures", N: int64(len(c12CapBases) * len(c12CapTypes) * len(c12CapTypes)), Exhaustive: true},
+		{Name: "typed-captures", N: int64(len(c12CapBases) * len(c12CapTypes) * len(c12CapTypes) * 3), Exhaustive: true},
 		{Name: "shadowing", N: int64(len(c12ShadowBlocks) * len(c12ShadowPairs) * 3), Exhaustive: true},
 		{Name: "redeclare", N: int64(len(c12RedeclForms) * len(c12ShadowPairs) * 2), Exhaustive: true},
 		{Name: "after-guard", N: int64(len(c12GuardForms) * len(c12ShadowPairs)), Exhaustive: true},
@@ -85,18 +85,23 @@ var c12Groks = []string{"%{p1:w1} %{p2:n1:int}", "%{WORD:w1} %{INT:n1:int} %{NUM
 // differ ONLY in the type annotation of the capture (none, str, string, int,
 // float, bool), in both orders, over five base patterns: each call stores its
 // capture with its own designated type.
-var c12CapBases = []string{"INT", "NUMBER", "WORD", "NOTSPACE", "tok"}
+// the last three capture the blanks around the number too (what a typed
+// capture makes of " 42 " is the engine's business, with and without the trim flag)
+var c12CapBases = []string{"INT", "NUMBER", "WORD", "NOTSPACE", "tok", "GREEDYDATA", "DATA", "padnum"}
 var c12CapTypes = []string{"", ":str", ":string", ":int", ":float", ":bool"}
 
 func c12TypedCaptures(i int64) ([]*gt.T, *ref.Point) {
+	trim := []string{"", ", true", ", false"}[i%3]
+	i /= 3
 	t2 := c12CapTypes[int(i)%len(c12CapTypes)]
 	i /= int64(len(c12CapTypes))
 	t1 := c12CapTypes[int(i)%len(c12CapTypes)]
-	base := c12CapBases[int(i)/len(c12CapTypes)]
-	text := "add_pattern(\"tok\", \"[0-9.]+|true\")\n" +
-		"ok1 = grok(_, \"%{" + base + ":cap" + t1 + "} rest\")\np(ok1, cap, get_key(cap))\n" +
-		"if true {\n  ok2 = grok(msg2, \"%{" + base + ":cap" + t2 + "} rest\")\n  p(ok2, cap, get_key(cap))\n}\n" +
-		"ok3 = grok(_, \"%{" + base + ":cap" + t1 + "} rest\")\np(ok3, cap, get_key(cap))\n"
+	bi := int(i) / len(c12CapTypes)
+	base := c12CapBases[bi]
+	text := "add_pattern(\"tok\", \"[0-9.]+|true\")\nadd_pattern(\"padnum\", \"\\\\s*[0-9.]+\\\\s*\")\n" +
+		"ok1 = grok(_, \"%{" + base + ":cap" + t1 + "} rest\"" + trim + ")\np(ok1, cap, get_key(cap))\n" +
+		"if true {\n  ok2 = grok(msg2, \"%{" + base + ":cap" + t2 + "} rest\"" + trim + ")\n  p(ok2, cap, get_key(cap))\n}\n" +
+		"ok3 = grok(_, \"%{" + base + ":cap" + t1 + "} rest\"" + trim + ")\np(ok3, cap, get_key(cap))\n"
 	o := drive.Parse("typed-captures", text)
 	if o.Err != nil {
 		panic("c12: typed-captures program does not parse: " + text + ": " + o.Err.Error())
@@ -106,6 +111,9 @@ func c12TypedCaptures(i int64) ([]*gt.T, *ref.Point) {
 		panic(err)
 	}
 	msgs := []string{"404 rest", "15.5 rest", "true rest", "word rest"}
+	if bi >= 5 {
+		msgs = []string{" 42  rest", "  7.5 rest", "\t1 rest", "size  42 rest", "15.5 rest", " true  rest"}
+	}
 	pt := ref.NewPoint("m", nil, map[string]any{"message": msgs[int(i)%len(msgs)], "msg2": msgs[(int(i)+1)%len(msgs)]}, time.Unix(1600000000, 0))
 	return gt.CloneStmts(l), pt
 }
